@@ -573,7 +573,94 @@ class ObjModels:
 				base_ref = self.rd(ip, st, base_ref)
 			return some(Ref(base_ref[0], base_ref[1], base_ref[2] + (pos,)))
 
+		def bucket_positions(ip, st, obj_ref, key):
+			"""[(state, positions)] of the entries the INDEX lists for `key` (bucket semantics)"""
+			o = deref_val(ip, st, obj_ref)
+			entries = o.fields[0][1]
+			out = []
+			for s, j in self.find(st, o.fields[1][1], entries, key):
+				b = deref_val(ip, s, obj_ref).fields[1][1]
+				out.append((s, [] if j is None else [b[j][0]] + list(b[j][1])))
+			return out
+
+		def base_ref(ip, st, r):
+			while isinstance(self.rd(ip, st, r), Ref):
+				r = self.rd(ip, st, r)
+			return r
+
+		def get_entries(with_index):
+			def f(ip, st, a):
+				key = deref_val(ip, st, a[1])
+				ob = base_ref(ip, st, a[0]) if isinstance(self.rd(ip, st, a[0]), Ref) else a[0]
+				out = []
+				for s, ps in bucket_positions(ip, st, a[0], key):
+					items = []
+					for p in ps:
+						r = Ref(ob[0], ob[1], ob[2] + (0, p))
+						items.append(Agg("tuple", None, (p, r)) if with_index else r)
+					out.append((s, Agg("EntriesIter", None, (tuple(items), 0))))
+				return out
+
+			return f
+
+		def iter_any_all(is_all):
+			def f(ip, st, a):
+				it = self.rd(ip, st, a[0])
+				if it.ty == "EntriesIter":
+					items = list(it.fields[0][it.fields[1]:])
+				elif it.ty == "SliceIter":
+					ref, pos = it.fields
+					v = deref_val(ip, st, ref)
+					b = base_ref(ip, st, ref) if isinstance(self.rd(ip, st, ref), Ref) else ref
+					items = [Ref(b[0], b[1], b[2] + (j,)) for j in range(pos, len(v[1]))]
+				else:
+					raise MirError("any/all on %r" % (it,))
+				c = ip.fn_value_call(a[1], [None])
+				if c is None:
+					raise MirError("Iterator::any/all with %r" % (a[1],))
+				# the closure is passed by value and called through &mut: keep it in a scratch local of the current frame
+				fi = len(st.frames) - 1
+				st.frames[fi].locals[900 + fi] = c.args[0]
+				out = []
+				work = [(st, 0)]
+				while work:
+					s, j = work.pop()
+					if j >= len(items):
+						out.append((s, is_all))
+						continue
+					for s2, r in ip.run_sub(s, c.fn, [Ref(fi, 900 + fi, ()), items[j]]):
+						if not isinstance(r, bool):
+							raise MirError("closure returned %r" % (r,))
+						if r == is_all:
+							work.append((s2, j + 1))
+						else:
+							out.append((s2, not is_all))
+				return out
+
+			return f
+
+		def value_unordered_eq(ip, st, a):
+			x, y = deref_val(ip, st, a[0]), deref_val(ip, st, a[1])
+			return x == y  # values are scalar tags in this check
+
+		def contains_dups(ip, st, a):
+			return any(o for _, o in deref_val(ip, st, a[0])[1])
+
+		def from_elem(ip, st, a):
+			return ("vec", tuple(a[0] for _ in range(a[1])))
+
 		base = {
+			"Object::get_entries": get_entries(False),
+			"Object::get_entries_with_index": get_entries(True),
+			"<Entries as Iterator>::any": iter_any_all(False),
+			"<EntriesWithIndex as Iterator>::any": iter_any_all(False),
+			"<std::slice::Iter as Iterator>::all": iter_any_all(True),
+			"<std::slice::Iter as Iterator>::any": iter_any_all(False),
+			"<Value as unordered::UnorderedPartialEq>::unordered_eq": one(value_unordered_eq),
+			"<Value as UnorderedPartialEq>::unordered_eq": one(value_unordered_eq),
+			"IndexMap::contains_duplicate_keys": one(contains_dups),
+			"std::vec::from_elem": one(from_elem),
+			"alloc::vec::from_elem": one(from_elem),
 			"Vec::new": one(lambda ip, st, a: ("vec", ())),
 			"<&Vec as IntoIterator>::into_iter": one(slice_iter),
 			"core::slice::iter": one(slice_iter),
@@ -690,7 +777,7 @@ class ObjProgram:
 			if m:
 				self.iters.setdefault(m.group(2), {})[m.group(1)] = f
 				continue
-			m = re.match(r"^object::<impl at src/object/mod\.rs:[0-9: ]+>::(clone|eq|cmp|partial_cmp|hash)\(_1: &Object", h)
+			m = re.match(r"^object::<impl at src/object/mod\.rs:[0-9: ]+>::(clone|eq|cmp|partial_cmp|hash|unordered_eq)\(_1: &Object", h)
 			if m:
 				self.by["@" + m.group(1)] = f
 				continue
@@ -726,7 +813,7 @@ class ObjProgram:
 			return None
 		# any other method of Object / Default for Object whose MIR is in the dump
 		m = re.match(r"^(?:<Object as \w+>|Object)::(\w+)$", callee)
-		if m and m.group(1) not in ("iter_mut",):
+		if m and m.group(1) not in ("iter_mut", "get_entries", "get_entries_with_index"):
 			for f in self.fns:
 				if "src/object/mod.rs" in f.header and re.search(r"::%s\((_1: (&mut |&)?Object\b|\) -> Object)" % re.escape(m.group(1)), f.header):
 					return f
@@ -1114,6 +1201,84 @@ class Explorer:
 				s.frames[0].locals.pop(k, None)
 		return out
 
+	def explore_unordered(self, n_max, budget):
+		"""C15: for every pair of objects of the same size <= n_max (keys symbolic, values over {0, 1}):
+		unordered_eq(A, B) holds exactly when B's entries are a permutation of A's (multiset equality
+		of (key, value) pairs, keys compared through the solver); both argument orders."""
+		import itertools
+
+		t0 = time.time()
+		prog = self.prog
+		if "@unordered_eq" not in prog.by:
+			raise MirError("Object::unordered_eq not found in the MIR dump")
+		self.pairs = 0
+		for n in range(0, n_max + 1):
+			for vals in itertools.product((0, 1), repeat=2 * n):
+				# build A then B by pushes (interpreted), from the empty object
+				st = State()
+				st.frames.append(Frame(None, {1: Agg("Object", None, (("vec", ()), ("imap", ())))}))
+				st.aux["nk"] = 0
+				states = [(st, [])]
+				for j in range(2 * n):
+					if j == n:
+						for s, _ in states:
+							s.frames[0].locals[8] = s.frames[0].locals[1]
+							s.frames[0].locals[1] = Agg("Object", None, (("vec", ()), ("imap", ())))
+						states = [(s, []) for s, _ in states]
+					nxt = []
+					for s, model in states:
+						k = s.aux["nk"]
+						s.aux["nk"] = k + 1
+						while len(self.keys.vars) <= k:
+							self.keys.fresh()
+						for s2, res in self.call(s, prog.by["push"], [Ref(0, 1, ()), ("key", k), vals[j]]):
+							nxt.append((s2, model + [(k, vals[j])]))
+					states = nxt
+				if n == 0:
+					for s, _ in states:
+						s.frames[0].locals[8] = s.frames[0].locals[1]
+				for s, modelB in states:
+					A = [(key_of(e.fields[0]), e.fields[1]) for e in s.frames[0].locals[8].fields[0][1]]
+					B = modelB if n else []
+					for (x, y, tag) in ((8, 1, "A,B"), (1, 8, "B,A")):
+						for s2, res in self.call(s.fork(), prog.by["@unordered_eq"], [Ref(0, x, ()), Ref(0, y, ())]):
+							for s3, want in self.multiset_eq(s2, A, B):
+								self.pairs += 1
+								if res is not want:
+									self.violation(s3, [["unordered_eq(%s)" % tag, [A, B]]], "C15:unordered-eq-iff-permutation-of-entries",
+									               "returned %r for A=%r B=%r (key,value pairs by key variable), expected %r" % (res, A, B, want))
+				if len(self.violations) >= 6 or (budget and time.time() - t0 > budget):
+					return
+
+	def multiset_eq(self, st, A, B):
+		"""[(state, bool)]: B is a permutation of A (keys compared through the solver)"""
+		out = []
+		work = [(st, 0, list(range(len(B))))]
+		if len(A) != len(B):
+			return [(st, False)]
+		while work:
+			s, i, free = work.pop()
+			if i >= len(A):
+				out.append((s, True))
+				continue
+			# find the first unmatched entry of B equal to A[i]
+			def search(s2, cand):
+				if not cand:
+					out.append((s2, False))
+					return
+				j = cand[0]
+				if B[j][1] != A[i][1]:
+					search(s2, cand[1:])
+					return
+				for s3, eq in self.keys.split(s2, "eq", A[i][0], B[j][0]):
+					if eq:
+						work.append((s3, i + 1, [x for x in free if x != j]))
+					else:
+						search(s3, cand[1:])
+
+			search(s, free)
+		return out
+
 	def explore(self, depth, budget):
 		t0 = time.time()
 		st = State()
@@ -1283,12 +1448,26 @@ def replay_history(native, history, keyvals):
 	            got=got[first] if first is not None and first < len(got) else None, want=want[first] if first is not None else None)
 
 
+def replay_unordered(native, A, B, keyvals):
+	"""unordered_eq of two concrete objects on the REAL Object, against the permutation criterion"""
+	import subprocess
+
+	name = lambda k: chr(keyvals[k])
+	a = ["%s=%d" % (name(k), v) for k, v in A]
+	b = ["%s=%d" % (name(k), v) for k, v in B]
+	p = subprocess.run([native, "unord", ",".join(a), ",".join(b)], stdout=subprocess.PIPE, stderr=subprocess.DEVNULL, timeout=60)
+	got = p.stdout.decode(errors="replace").strip()
+	want = "%s %s" % (str(sorted(a) == sorted(b)).lower(), str(sorted(a) == sorted(b)).lower())
+	return dict(a=a, b=b, got=got, want=want, reproduced=(got != want))
+
+
 def main():
 	ap = argparse.ArgumentParser()
 	ap.add_argument("--repo", default="/repo")
 	ap.add_argument("--out", default=None)
 	ap.add_argument("--build", default=os.path.join(HERE, "..", ".build", "obj"))
 	ap.add_argument("--depth", type=int, default=3)
+	ap.add_argument("--unordered", type=int, default=-1, help="C15 mode: pairs of objects of <= this many entries")
 	ap.add_argument("--budget", type=float, default=0)
 	ap.add_argument("--mir", default=None)
 	a = ap.parse_args()
@@ -1300,6 +1479,25 @@ def main():
 		out["mir_dump_s"] = round(dt, 1)
 		ex = Explorer(a.repo, text)
 		out["functions_encoded"] = ex.prog.encoded()
+		if a.unordered >= 0:
+			ex.with_content = False
+			ex.explore_unordered(a.unordered, a.budget)
+			native = drvcheck.build_native(a.repo, a.build)
+			for v in ex.violations:
+				kv = list(v.get("keys") or [])
+				while len(kv) < 8:
+					kv.append(0x41 + len(kv))
+				A, B = v["history"][0][1]
+				v["native"] = replay_unordered(native, A, B, kv)
+			out.update(max_entries=a.unordered, pairs=ex.pairs, histories=ex.pairs, operations_run=ex.ops_run, mir_steps=ex.ip.stats["steps"], solver_queries=ex.keys.queries,
+			           solver_time_s=round(ex.keys.solver_time, 2), key_variables=len(ex.keys.vars), wall_s=round(time.time() - t0, 1), timed_out=False, violations=ex.violations)
+			out["ok"] = True
+			log("unordered_eq, objects of <= %d entries: %d (pair, key-relation) cases, %d solver queries, %.1fs, %d violation(s)" % (a.unordered, ex.pairs, ex.keys.queries, time.time() - t0, len(ex.violations)))
+			if a.out:
+				json.dump(out, open(a.out, "w"), indent=1, default=str)
+			else:
+				print(json.dumps(out, indent=1, default=str)[:4000])
+			return 0
 		ex.explore(a.depth, a.budget)
 		native = drvcheck.build_native(a.repo, a.build)
 		# translator validation: completed symbolic histories, instantiated with the solver's keys,
